@@ -79,9 +79,8 @@ def repo_files(chk):
     chk.extra["repository_files"] = done
 
 
-def main(chk: core.Check, replay):
-    if replay:
-        return core.replay_generic(chk, replay)
+def myokit_corpus(chk, pid, n_quick=300, kinds=None):
+    """MyokitScope models through import -> save -> reload -> rhs (-> back to Myokit); kinds: problem kinds reported."""
     cfg = tlc.make_cfg(constants={"NumLex": "<- NumLexDef", "BigToks": "{}"}, invariants=["C15_WellDefined", "Emit"])
     res = tlc.run_tlc("MyokitScope", cfg, workers=chk.nproc, timeout=900)
     recs = res.records
@@ -90,7 +89,7 @@ def main(chk: core.Check, replay):
     if not recs:
         raise core.MachineryFailure("MyokitScope emitted nothing")
     if chk.tier == "quick":
-        recs = random.Random(chk.seed).sample(recs, 300)
+        recs = random.Random(chk.seed).sample(recs, n_quick)
     out = myokitcase.replay(recs, chk.nproc)
     kept = [o for o in out if not o["discarded"]]
     chk.replayed += len(kept)
@@ -106,8 +105,17 @@ def main(chk: core.Check, replay):
                                     f"{chk.extra['myokit_corpus']['discard_reasons']}")
     for o in out:
         for p in o["problems"]:
-            chk.violation(f"C15:{p['kind']}:{p.get('state', p.get('name', ''))}", {**o, "problem": p},
+            if kinds is not None and p["kind"] not in kinds:
+                continue
+            chk.violation(f"{pid}:{p['kind']}:{p.get('state', p.get('name', ''))}", {**o, "problem": p},
                           f"Myokit import: {p['kind']} " + str({k: v for k, v in p.items() if k != 'kind'})[:240])
+    return kept
+
+
+def main(chk: core.Check, replay):
+    if replay:
+        return core.replay_generic(chk, replay)
+    kept = myokit_corpus(chk, "C15")
     chk.sample({"mmt": kept[0]["mmt"]})
     repo_files(chk)
 
